@@ -5,6 +5,7 @@ source equals the audited one (Gen_panics.v vs PanicSites.v).
 Tie: hostile inputs through every real decoder (hook-built driver) vs the extracted model; the
 oracle is 'no panic, no hang'."""
 import json
+import time
 
 from common import *
 from codec_cases import *
@@ -173,8 +174,11 @@ def run(tier, seed, replay=None):
         if "sites_fingerprint" in coq.get("log", "") or "C05Proofs" in coq.get("log", ""):
             detail += "\n" + site_diff()
         rep.broken_obligation(broken[0] + " (no panicking input found among %d hostile inputs)" % len(cases), detail)
+    fd = None
+    if not replay:
+        fd = fd_exhaustion(rep, driver)
     rep.coverage.update({
-        "evaluations": len(cases), "distinct_nontrivial": len(set(l for _, _, l in classes)),
+        "evaluations": len(cases) + (fd or 0), "distinct_nontrivial": len(set(l for _, _, l in classes)),
         "rule": "random byte strings, protocol-shaped prefixes with every hostile length/type byte, mutated valid messages (flip, truncate, insert, delete, extend) under random segmentation, hostile HTTP status/header lines incl. Session-Id values and 64 KiB boundary lines, hostile upstream replies to the SOCKS5 connector, garbage fragments through reassembly + Frame::from_buffer; every case is non-trivial (distinct hostile input); classes counted by (decoder, outcome)",
         "input_distribution": dist, "outcome_classes": len(set((a, b) for a, b, _ in classes)),
         "model_impl_disagreements": n_diff,
@@ -183,9 +187,85 @@ def run(tier, seed, replay=None):
     })
     rep.assumptions = ["a panic is process death: Cargo.toml sets panic='abort' for both profiles (Gen_profile.v, re-read every run)",
                        "the driver build overrides panic to 'unwind' only so that it can report the panic site",
-                       "resource exhaustion by connection count is outside the per-input scope of this check (finding D32 in DESIGN.md)",
+                       "resource exhaustion by connection count: one scenario (descriptor limit 200, 150 clients per listener, both I/O modes); memory exhaustion is not exercised",
                        "tproxy listener (needs CAP_NET_ADMIN) is not exercised"]
     return rep.finish()
+
+
+def fd_exhaustion(rep, driver):
+    """more clients than the descriptor limit allows, on every TCP listener kind and in both I/O modes; afterwards the
+    process must be alive and every listener must serve a new client (a remote party must not be able to wedge it)"""
+    import e2e
+    import socket
+    from e2e import LOOP
+    n = 0
+    org = e2e.Server(e2e.echo_handler)
+    try:
+        for splice in (True, False):
+            lp = {"http": e2e.free_port(), "socks": e2e.free_port(), "rev": e2e.free_port()}
+            listeners = [{"name": "http", "bind": "%s:%d" % (LOOP, lp["http"])}, {"name": "socks", "bind": "%s:%d" % (LOOP, lp["socks"])},
+                         {"name": "rev", "type": "reverse", "bind": "%s:%d" % (LOOP, lp["rev"]), "target": "%s:%d" % (LOOP, org.port)}]
+            p = e2e.Proxy(driver, listeners, [{"name": "direct"}], [{"target": "direct"}], io={"useSplice": splice, "bufferSize": 65536}, metrics=False, name="c05-fd", nofile=200)
+            p.start()
+            held = []
+            try:
+                for kind in ("http", "socks", "rev"):
+                    misses = 0
+                    for _ in range(150):
+                        if misses >= 6:
+                            break              # the limit is reached: further clients are not accepted
+                        try:
+                            if kind == "http":
+                                c, head, extra = e2e.http_connect(lp["http"], "%s:%d" % (LOOP, org.port), timeout=1.0)
+                            elif kind == "socks":
+                                c, sel, rp_ = e2e.socks5_connect(lp["socks"], LOOP, org.port, timeout=1.0)
+                            else:
+                                c = socket.create_connection((LOOP, lp["rev"]), timeout=1.0)
+                            held.append(c)
+                            misses = 0
+                        except OSError:
+                            misses += 1
+                        if not p.alive():
+                            break
+                    for c in held:
+                        e2e.close_quiet(c)
+                    held = []
+                    time.sleep(1.2)
+                    n += 1
+                    what = "%s listener, splice=%s, descriptor limit 200, 150 clients then all closed" % (kind, splice)
+                    if not p.alive():
+                        rep.fail("C05: %s: the process died (exit %s)" % (what, p.proc.poll()), {"kind": "failing-input", "scenario": what})
+                        break
+                    ok = False
+                    for _ in range(3):
+                        try:
+                            if kind == "http":
+                                c, head, extra = e2e.http_connect(lp["http"], "%s:%d" % (LOOP, org.port), timeout=3.0)
+                                ok = head.startswith(b"HTTP/1.1 200")
+                            elif kind == "socks":
+                                c, sel, rp_ = e2e.socks5_connect(lp["socks"], LOOP, org.port, timeout=3.0)
+                                ok = rp_[:2] == b"\x05\x00"
+                            else:
+                                c = socket.create_connection((LOOP, lp["rev"]), timeout=3.0)
+                                c.sendall(b"ping")
+                                ok = e2e.recv_exact(c, 4, timeout=3.0) == b"ping"
+                            e2e.close_quiet(c)
+                        except OSError:
+                            ok = False
+                        if ok:
+                            break
+                        time.sleep(0.5)
+                    if not ok:
+                        rep.fail("C05: %s: the listener no longer serves new clients although the process is running" % what, {"kind": "failing-input", "scenario": what})
+            finally:
+                for c in held:
+                    e2e.close_quiet(c)
+                p.stop()
+                import shutil
+                shutil.rmtree(p.dir, ignore_errors=True)
+    finally:
+        org.close()
+    return n
 
 
 def site_diff():
